@@ -1041,11 +1041,17 @@ class C20(Check):
         items = dict(x.split("=") for x in impl.split()) if impl else {}
         sp = dict(x.split("=") for x in spec.split()) if spec not in ("-", "") else {}
         mir = sp.pop("@mirror", None)
+        sq = sp.pop("@seq", None)
         oracle = None
         if corr is None and model != impl:
             corr = "differs"
         if corr is None and mir == "DIFF":
             corr = f"the second position of the request is not Game.mirror (the transformation of theorem see_mirror) of {f[1]}"
+        if corr is None and sq not in (None, "ok"):
+            corr = (f"model-internal: for the tie-free capture {sq} the model's bitboard sequence of capturers (See.capturers, "
+                    f"theorem see_swaplist) is not the mailbox sequence (See.seq, theorem spec_is_swaplist): {f[1]}")
+        if sq == "ok":
+            feats.add("sequences-agree")
         for mv, v in items.items():
             a, b = v.split("/")
             self.distinct.add((f[1], mv)) if False else None
